@@ -3,7 +3,7 @@
    The end-to-end statement (directives still evaluate, same unwind state at every surviving instruction) is decided on the
    implementation with its own evaluator (the subject of C15) by harness/c08.py. *)
 From Coq Require Import ZArith List Bool Arith.
-From GR Require Import Base.Result IR.State IR.Modify IR.Edit IR.Cfi IR.CfiView IR.FindingsGen CfiEval.Model.
+From GR Require Import Base.Result IR.State IR.Modify IR.Edit IR.Cfi IR.CfiView IR.CfgClosedInsert IR.CfiInsert IR.FindingsGen CfiEval.Model.
 From Coq Require Import String.
 Import ListNotations.
 Open Scope Z_scope.
@@ -80,6 +80,17 @@ Example C08_nonvacuous :
   = [(DRemember, 1); (DRestore, 7); (DStart, 8)] /\
   split_at_endproc [(DOther, 1); (DEnd, 2); (DStart, 3)] = ([(DOther, 1)], [(DEnd, 2); (DStart, 3)]).
 Proof. split; vm_compute; reflexivity. Qed.
+
+(* ===== the steps of insert() between insert_split and the clean-up (insert_body: C05_insert_is_its_steps) =====
+   leave the directives of every block of the module exactly as they were and give the patch's blocks the patch's directives
+   (create_cfi_directives of the assembled patch: none when the patch is inserted outside a procedure) -- whatever moves the directives of
+   the edited block is done by split_block before and by join_blocks / remove_block afterwards (the theorems above). *)
+Theorem C08_insert_body_leaves_the_directives_alone :
+  forall s b first last lastk end_block added_ft bi offset repl code p pcfg pprox el,
+    NoDup (map fst (p_cfi p)) ->
+    aget el (cfi (insert_body s b first last lastk end_block added_ft bi offset repl code p pcfg pprox)) =
+    match aget el (p_cfi p) with Some dm => Some dm | None => aget el (cfi s) end.
+Proof. exact insert_body_cfi. Qed.
 
 (* ===== the recorded finding, end to end over the two models (rewriting core IR/*.v, CFI evaluator CfiEval/Model.v) =====
    "If the directives evaluate cleanly, they still do after the rewrite" is FALSE: block 2 = [nop2; ret] opens procedure 1 with
